@@ -222,7 +222,7 @@ fn extraction(acc: &mut Acc) {
     let e = Envelope::new("text");
     for (nm, r) in [("Vec<u32>", catch(|| e.extract_subject::<Vec<u32>>().is_ok())), ("HashMap", catch(|| e.extract_subject::<std::collections::HashMap<String, u32>>().is_ok())), ("HashSet", catch(|| e.extract_subject::<HashSet<u32>>().is_ok()))] {
         acc.inc("extractions");
-        match r { Err(p) => acc.viol(format!("C15|extract|panic|{}", p.loc), format!("text leaf as {nm}: {}", p.msg), format!("extract/text/as-{nm}"), json!({})), Ok(true) => acc.viol(format!("C15|extract|text-as-{nm}|accepted"), "accepted", format!("extract/text/as-{nm}"), json!({})), Ok(false) => {} }
+        match r { Err(p) => acc.viol(format!("C15|extract|panic|{}", p.site), format!("text leaf as {nm} panicked at {}: {}", p.loc, p.msg), format!("extract/text/as-{nm}"), json!({})), Ok(true) => acc.viol(format!("C15|extract|text-as-{nm}|accepted"), "accepted", format!("extract/text/as-{nm}"), json!({})), Ok(false) => {} }
     }
 }
 
